@@ -1387,7 +1387,12 @@ func (c *Conn) readAndProcessDatagram(ctx context.Context) (datagramProcessingSu
 
 	pkts, err := c.unpackDatagram(b[:i])
 	if err != nil {
-		return datagramProcessingSummary{}, err
+		// A datagram that cannot be split into records is silently discarded
+		// [RFC6347 Section-4.1.2.7]: anyone can send one, it must not end the
+		// handshake or surface as a read error.
+		c.log.Debugf("discarded broken datagram: %v", err)
+
+		return datagramProcessingSummary{}, nil
 	}
 
 	var summary datagramProcessingSummary
